@@ -357,6 +357,60 @@ def gen_boundary(rng, quick):
     return cases
 
 
+# Floats at the edges of the double range, written in exponent style (not modelled in Coq: oracle only)
+EDGE_DOUBLES = [0x0010000000000000, 0x000fffffffffffff, 0x0000000000000001, 0x0000000000000002, 0x0008000000000000,
+                0x7fefffffffffffff, 0x7feffffffffffffe, 0x7fe0000000000000, 0x0020000000000000, 0x0010000000000001,
+                0x000012688b70e62b,          # 1e-310
+                0x0000000027cd5c4b,          # -3.3e-315 (magnitude)
+                0x7fe1ccf385ebc8a0,          # 1e308
+                0x3ff0000000000000, 0x0000000000000000, 0x3fb999999999999a, 0x4340000000000000]
+EG_SPECS = [('e', 'le'), ('g', 'lg'), ('.17g', 'lf'), ('.17e', 'le'), ('.3e', 'lf'), ('.3g', 'lg'), ('E', 'le'), ('G', 'lf'),
+            ('le', 'le'), ('lg', 'lg'), ('+.10e', 'lf'), ('22.5e', 'le'), ('#g', 'lg'), ('.0e', 'le'), ('.16e', 'lf'), ('025.17g', 'lg')]
+
+
+def gen_eg_cases(rng, quick):
+    vals = [b | (s << 63) for b in EDGE_DOUBLES for s in (0, 1)]
+    vals += [rng.randrange(1, 2 ** 52) | (rng.randrange(2) << 63) for _ in range(40)]                   # subnormals
+    vals += [dbl_bits(rng.randrange(2), rng.choice([1, 2, 2045, 2046, rng.randrange(1, 2047)]), rng.randrange(2 ** 52)) for _ in range(40)]
+    cases = []
+    for n, b in enumerate(vals):
+        for (ps, ss) in (EG_SPECS if n < 2 * len(EDGE_DOUBLES) else rng.sample(EG_SPECS, 3 if quick else 8)):
+            tok = 'N%s/%s:%016x' % (ps, ss, b)
+            K = rng.choice('SF'); follow = rng.random() < .5; start = rng.choice([0, 0, rng.randrange(1, 41)])
+            cases.append(arrange(rng, tok, True, K, start, follow))
+    return cases
+
+
+# every length modifier of the integer conversions x every conversion x values at the edges of the named type
+INT_MODS = [('hh', 8), ('h', 16), ('', 32), ('l', 64), ('ll', 64), ('j', 64), ('z', 64), ('t', 64), ('q', 64)]
+
+
+def gen_mod_cases(rng, quick):
+    cases = []
+    for mod, w in INT_MODS:
+        for conv in 'diuoxX':
+            signed = conv in 'di'
+            if signed:
+                lo, hi = -2 ** (w - 1), 2 ** (w - 1) - 1
+            elif w == 64:
+                lo, hi = I64MIN, I64MAX                   # two's complement: every int64 goes through %lu and back
+            else:
+                lo, hi = 0, 2 ** w - 1
+            edge = set([lo, hi, lo + 1, hi - 1, 0, 1, -1, 42, -1000])
+            for k in (7, 8, 15, 16, 31, 32, 63):
+                edge |= set([2 ** k - 1, 2 ** k, 2 ** k + 1, -2 ** k, -2 ** k - 1, -2 ** k + 1])
+            vals = sorted(v for v in edge if lo <= v <= hi)
+            if quick and len(vals) > 12:
+                keep = [lo, hi, lo + 1, hi - 1, 0, -1 if lo < 0 else 1]
+                vals = sorted(set(keep + rng.sample(vals, 8)))
+            for v in vals:
+                ps = rng.choice(['', '', '', '+' if signed else '', '12', '024' if conv != 'i' else '9']) + mod + conv
+                sconv = {'X': 'x'}.get(conv, conv) if rng.random() < .5 else conv
+                tok = 'N%s/%s:%d' % (ps, mod + sconv, v)
+                cases.append(arrange(rng, tok, True, rng.choice('SF'), rng.choice([0, 0, rng.randrange(1, 41)]), rng.random() < .5))
+    return cases
+
+
 # ---------------------------------------------------------------------------------------------
 def parse_case(case):
     hd, body = case.split('|', 1)
@@ -374,6 +428,8 @@ def tok_info(t):
         return ('v', 's', bytes.fromhex(t[2:]), None, '')
     ps, rem = t[1:].split('/', 1)
     ss, val = rem.split(':', 1)
+    if ps[-1] in 'eEgG':
+        return ('v', 'f', int(val, 16), None, ps)         # exponent style: judged against printf/strtod semantics
     if ps[-1] in 'fF':
         p = 6
         if '.' in ps:
@@ -433,7 +489,8 @@ def oracle(case, impl, spec):
     if r.startswith('R!'):
         return 'reader raised %s' % r[2:]
     try:
-        content, wpos = w[1:].split(';'); wpos = int(wpos)
+        content, wpos, texts = w[1:].split(';'); wpos = int(wpos)
+        texts = [bytes.fromhex(t) for t in texts.split(',')] if texts else []
         rv, rpos = r[1:].split(';'); rpos = int(rpos)
         content = bytes.fromhex(content)
     except Exception:
@@ -443,7 +500,14 @@ def oracle(case, impl, spec):
     if len(got) != len(vals) or len(want) != len(vals):
         return 'read %d values, %d were written' % (len(got), len(vals))
     for n, (g, wv, inf) in enumerate(zip(got, want, vals)):
-        if inf[1] == 'f':
+        if inf[1] == 'f' and inf[3] is None:
+            # %e / %g: the value strtod gives for the text printf writes (Python's float formatting and
+            # parsing are correctly rounded like glibc's); this is within the printed precision whenever the
+            # printed text is in range, and it is +-inf when rounding to few digits leaves the double range
+            exp = c_float_roundtrip(inf[4], inf[2])
+            if int(g[1:], 16) != exp:
+                return 'value %d: Float %s written with %%%s reads back as %s, printf/strtod give %016x' % (n, wv, inf[4], g, exp)
+        elif inf[1] == 'f':
             a, b = float_q(int(g[1:], 16)), float_q(int(wv[1:], 16))
             if a is None:
                 return 'value %d: read back a non-finite Float (%s) for %s' % (n, g, wv)
@@ -453,11 +517,30 @@ def oracle(case, impl, spec):
             return 'value %d: wrote %s, read back %s' % (n, wv, g)
     if content[:len(pre)] != pre:
         return 'the %d bytes before the start position were changed' % len(pre)
+    # the text of every numeric directive is what the C library writes for an argument of the named type
+    at = len(pre)
+    for t in texts:
+        k = content.find(t, at)
+        if k < 0:
+            return 'the text %r that snprintf writes for a numeric directive is not in what was written (%r)' % (t[:80], content[len(pre):][:120])
+        at = k + len(t)
     if wpos != len(content):
         return 'writer returned position %d, the sink holds %d bytes' % (wpos, len(content))
     if rpos != wpos:
         return 'reader returned position %d, %d characters were written up to position %d' % (rpos, len(content) - len(pre), wpos)
     return None
+
+
+def c_float_roundtrip(ps, bits):
+    """bit pattern of strtod(snprintf("%<ps>", x))"""
+    import struct
+    x = struct.unpack('<d', struct.pack('<Q', bits))[0]
+    txt = ('%' + ps.replace('_', ' ').replace('l', '').replace('L', '')) % x
+    return struct.unpack('<Q', struct.pack('<d', float(txt)))[0]
+
+
+def has_eg(case):
+    return any(t[0] == 'N' and t.split('/', 1)[0][-1] in 'eEgG' for t in case.split('|', 1)[1].split(' ') if t)
 
 
 def spec_line(case):
@@ -537,6 +620,13 @@ def join(hd, toks):
     return hd + '|' + ' '.join(out)
 
 
+EG_CORPUS = [
+    'S:::G|Ne/le:000012688b70e62b',                   # 1e-310 written with %e: subnormal text (strtod reports ERANGE, value correct)
+    'F:::G|N.17g/lg:0000000000000001 L2c $i7',        # smallest denormal, then a second value, File
+    'S:::G|N.3e/lf:0010000000000000',                 # DBL_MIN printed with %.3e -> 2.225e-308, below DBL_MIN
+    'S:::G|N.3e/le:7fefffffffffffff',                 # DBL_MAX printed with %.3e -> 1.798e+308 = inf by strtod
+]
+
 CORPUS = [
     'S:::G|$s610a62225c64',                           # D7: a \n b " \ d  (escape letter appended after the decoded byte)
     'S:::E|$s0a',                                     # D7 shrunk
@@ -551,6 +641,9 @@ CORPUS = [
     'F:6d::G|L2025 N+li/li:10000000000',              # D23 (shrunk replay)
     'S::2c78:E|$f4bb84900df3f6d36',                   # a %f text of exactly 64 characters (seeded change: 64-byte stack buffer in String_Format_To)
     'S:7070::G|N064ld/ld:-42 L2c20 $s6162',           # a zero-padded Int of exactly 64 characters, then a separator and a String
+    'S:::G|N+hhd/hhd:-1',                             # %hhd: -1 read back as 255 (narrow sign restoration)
+    'F::2c78:E|Nhd/hi:-32768 L2c Njd/jd:-9223372036854775808 L2c Nzx/zx:-1',   # h, j, z modifiers at the edges
+    'S:::G|Ntd/td:4294967297 L20 Nqd/qd:-4294967297 L20 Nlld/lld:9223372036854775807',
     'S:7070:2c:G|$i123 L2c20 $s610a62 L3b $f405edd2f1a9fbe77',
     'S:::G|$i-9223372036854775808 L20 $i9223372036854775807',
     'S:::G|$s070809' + '0a0b0c0d5c27223f' + ' L2c $s ' + 'L2c $sff80fe25',
@@ -602,13 +695,17 @@ def run(ctx):
                                     'detail': model_broken[-3000:], 'theorem_or_file': 'Extract_RoundTrip.v / Generated.v',
                                     'search': 'oracle clean on %d cases' % d.ncases}, no_failing_input=True)
     d.report = report
+    # exponent-style Float directives (%e %g) are not modelled in Coq: the oracle alone decides them
+    d2 = vlib.Differential(ctx, 'roundtrip_eg', run_impl, None, run_spec, oracle, corr, lambda c, i: True, split, join)
     rp = os.environ.get('VERIF_REPLAY')
     if rp:
         r = json.load(open(rp))
-        d.feed([r['case']] if 'case' in r else CORPUS)
-        for x in d.oracle_fail + d.corr_fail:
+        cs = [r['case']] if 'case' in r else CORPUS
+        dd = d2 if ('case' in r and has_eg(r['case'])) else d
+        dd.feed(cs)
+        for x in dd.oracle_fail + dd.corr_fail:
             print('REPLAY: %s\n  impl  %s\n  model %s\n  spec  %s' % (x[4], x[1], x[2], x[3]))
-        d.report()
+        dd.report()
         return
     bad = [c for c in CORPUS if not wellformed(c)]
     if bad:
@@ -623,6 +720,24 @@ def run(ctx):
     for i in range(0, len(bnd), 2000):
         d.feed(bnd[i:i + 2000], 'boundary')
     ctx.cov['boundary_cases'] = len(bnd)
+    # every integer length modifier x conversion x values at the edges of the named C type
+    mods = gen_mod_cases(rng, quick)
+    for c in mods:
+        assert wellformed(c), c[:300]
+    d.feed(mods, 'modifiers')
+    ctx.cov['modifier_cases'] = len(mods)
+    # doubles at the edges of the range (subnormals, DBL_MIN, DBL_MAX) in exponent style: oracle only
+    egs = gen_eg_cases(rng, quick)
+    for c in egs:
+        assert wellformed(c), c[:300]
+    d2.feed(EG_CORPUS + egs, 'exponent-style')
+    ctx.cov['exponent_style_cases'] = len(egs) + len(EG_CORPUS)
+    # the same edge doubles with enough decimals in %f style that the text itself is a subnormal number (modelled)
+    sub = []
+    for b in [1, 2 ** 51, 2 ** 52 - 1, 2 ** 52, rng.randrange(1, 2 ** 52)]:
+        for ps in ('.330f', '.1074f', '.400lf'):
+            sub.append(arrange(rng, 'N%s/lf:%016x' % (ps, b | (rng.randrange(2) << 63)), True, rng.choice('SF'), 0, rng.random() < .5))
+    d.feed(sub, 'subnormal-f')
     # every one-byte String, alone, String and File
     d.feed(['%s:::%s|$s%02x' % (rng.choice('SF'), rng.choice('GE'), b) for b in range(1, 256)], 'bytes')
     # two-byte Strings: a sample (quick) or all of them (thorough)
@@ -701,3 +816,4 @@ def run(ctx):
     def extra(dd):
         dd.feed([gen_case(rng, 4, heavy_ok=False) for _ in range(10 * min(n, 2000))])
     d.report(extra)
+    d2.report(None)
